@@ -31,7 +31,7 @@ SCALES = {"rad": 1.0, "deg": gs.DEGREE_SCALE, "km": gs.KM_SCALE, "arb": 17.3}
 
 
 def _model(cls, gsc, temporal=False, t_anis=1.0, **kw):
-    opts = {"Matern": {"nu": 1.5}, "Stable": {"alpha": 1.4}}.get(cls, {})
+    opts = {"Matern": {"nu": 1.5}, "Stable": {"alpha": 1.4}, "TPLGaussian": {"hurst": 0.4}, "TPLExponential": {"hurst": 0.4, "len_low": 0.1}}.get(cls, {})
     extra = {}
     if temporal:
         extra.update(temporal=True, anis=[1.0, 1.0, t_anis])
@@ -253,7 +253,8 @@ def run(chk):
     chk.run("embed", case_embed, ec, rule="geo_scale {rad, deg, km, 17.3} x temporal x time anisotropy {1, .25, 4} on the full lat x lon alphabet {-90,-45,0,30,90} x {-180,-90,0,179.999,180,270,540}: sphere embedding, inverse, chordal <-> great-circle, forced dim / isotropy / zero angles")
     pts = list(itertools.product(LATS, LONS)) + [(10.0 * gen[0], 50.0 * gen[1])]
     pairs = list(itertools.combinations(range(len(pts)), 2))
-    classes = ["Exponential", "Gaussian", "Matern", "Spherical"] if tier != "quick" else ["Exponential", "Matern"]
+    # (TPL models: variance = intensity x factor, so that var and the raw variance differ)
+    classes = ["Exponential", "Gaussian", "Matern", "Spherical", "TPLGaussian", "TPLExponential"] if tier != "quick" else ["Exponential", "Matern", "TPLGaussian"]
     cc = [{"scale": s, "cls": c, "p1": list(pts[i]), "p2": list(pts[j])} for s in (SCALES if tier != "quick" else ["rad", "km"]) for c in classes for (i, j) in pairs[:: (1 if tier != "quick" else 3)]]
     chk.run("cov", case_cov, cc, rule="all pairs of the lat-lon alphabet x geo_scale x model: covariance read back from a one-point simple kriging and the SRF mode sum vs Yadrenko covariance of the oracle great-circle distance", chunk=16)
     rc = [{"scale": s, "cls": c, "variant": v, "angles": [[gen[0], gen[1], gen[2]], [gen[3], gen[4], gen[5]], [gen[6], gen[7], gen[8]]]} for s in SCALES for c in ["Exponential", "Gaussian"] for v in ["Simple", "Ordinary", "Universal"] if not (v == "Universal")]
